@@ -193,6 +193,7 @@ func verifCanary(label string, cond bool) {}
 //@   assigns buf.pos, buf.err
 //@   ensures [C02:inv] bufInv(buf) && sameslice(buf.buf, old(buf.buf)) && buf.pos >= old(buf.pos)
 //@   ensures [C02:sticky] old(buf.err) != nil ==> buf.pos == old(buf.pos) && buf.err == old(buf.err)
+//@   ensures [C21:shape] scalarOf(m.mask & 0x3f, result)
 
 // split reshapes the flat element list. Its termination and bounds rest on "the product of dims equals
 // j-i" (step = (j-i)/dims[level] must be positive and divide evenly), a non-linear fact that 64-bit
@@ -224,6 +225,110 @@ func verifCanary(label string, cond bool) {}
 //@   loop 2 invariant 1 <= count && count <= 65535
 //@   loop 3 invariant len(dims) == len(m.arrayDimensions) && fresh(dims)
 //@   loop 3 invariant forall k int :: 0 <= k && k <= rangeindex ==> dims[k] >= 1
+
+// ---------------------------------------------------------------------------
+// C21: the shape of a Variant as its decoder (or NewVariant) leaves it, and the typed accessors.
+// A scalar Variant (no array bit) holds a value whose dynamic type is the one its type id names;
+// pointers among them are not nil. decodeValue proves that it produces exactly this; the accessors
+// rely on it and must not panic for any Variant of this shape, arrays of any length included.
+// ---------------------------------------------------------------------------
+
+//@ pred scalarOf(t byte, x interface{}) :=
+//@      (t == 1 ==> typeis(x, bool)) && (t == 2 ==> typeis(x, int8)) && (t == 3 ==> typeis(x, uint8)) &&
+//@      (t == 4 ==> typeis(x, int16)) && (t == 5 ==> typeis(x, uint16)) && (t == 6 ==> typeis(x, int32)) &&
+//@      (t == 7 ==> typeis(x, uint32)) && (t == 8 ==> typeis(x, int64)) && (t == 9 ==> typeis(x, uint64)) &&
+//@      (t == 10 ==> typeis(x, float32)) && (t == 11 ==> typeis(x, float64)) && (t == 12 ==> typeis(x, string)) &&
+//@      (t == 13 ==> typeis(x, time.Time)) && (t == 14 ==> typeis(x, *GUID) && dyn(x, *GUID) != nil) &&
+//@      (t == 15 ==> typeis(x, []byte)) && (t == 16 ==> typeis(x, XMLElement)) &&
+//@      (t == 17 ==> typeis(x, *NodeID) && dyn(x, *NodeID) != nil) &&
+//@      (t == 18 ==> typeis(x, *ExpandedNodeID) && dyn(x, *ExpandedNodeID) != nil) &&
+//@      (t == 19 ==> typeis(x, StatusCode)) &&
+//@      (t == 20 ==> typeis(x, *QualifiedName) && dyn(x, *QualifiedName) != nil) &&
+//@      (t == 21 ==> typeis(x, *LocalizedText) && dyn(x, *LocalizedText) != nil) &&
+//@      (t == 22 ==> typeis(x, *ExtensionObject) && dyn(x, *ExtensionObject) != nil) &&
+//@      (t == 23 ==> typeis(x, *DataValue) && dyn(x, *DataValue) != nil) &&
+//@      (t == 24 ==> typeis(x, *Variant) && dyn(x, *Variant) != nil) &&
+//@      (t == 25 ==> typeis(x, *DiagnosticInfo) && dyn(x, *DiagnosticInfo) != nil)
+
+//@ pred variantShape(m *Variant) := m != nil && (m.mask & 0x80 == 0 ==> scalarOf(m.mask & 0x3f, m.value) && m.arrayLength == 0) &&
+//@      (m.mask & 0x80 != 0 && m.mask & 0x3f == 3 && m.arrayLength != 0 && len(m.arrayDimensions) == 0 ==> typeis(m.value, ByteArray))
+
+//@ func (*Variant).String
+//@   props C21
+//@   requires variantShape(m)
+//@   assigns nothing
+//@ func (*Variant).Bool
+//@   props C21
+//@   requires variantShape(m)
+//@   assigns nothing
+//@ func (*Variant).Float
+//@   props C21
+//@   requires variantShape(m)
+//@   assigns nothing
+//@ func (*Variant).Int
+//@   props C21
+//@   requires variantShape(m)
+//@   assigns nothing
+//@ func (*Variant).Uint
+//@   props C21
+//@   requires variantShape(m)
+//@   assigns nothing
+//@ func (*Variant).ByteArray
+//@   props C21
+//@   requires variantShape(m)
+//@   assigns nothing
+//@ func (*Variant).ByteString
+//@   props C21
+//@   requires variantShape(m)
+//@   assigns nothing
+//@ func (*Variant).DataValue
+//@   props C21
+//@   requires variantShape(m)
+//@   assigns nothing
+//@ func (*Variant).DiagnosticInfo
+//@   props C21
+//@   requires variantShape(m)
+//@   assigns nothing
+//@ func (*Variant).ExpandedNodeID
+//@   props C21
+//@   requires variantShape(m)
+//@   assigns nothing
+//@ func (*Variant).ExtensionObject
+//@   props C21
+//@   requires variantShape(m)
+//@   assigns nothing
+//@ func (*Variant).GUID
+//@   props C21
+//@   requires variantShape(m)
+//@   assigns nothing
+//@ func (*Variant).LocalizedText
+//@   props C21
+//@   requires variantShape(m)
+//@   assigns nothing
+//@ func (*Variant).NodeID
+//@   props C21
+//@   requires variantShape(m)
+//@   assigns nothing
+//@ func (*Variant).QualifiedName
+//@   props C21
+//@   requires variantShape(m)
+//@   assigns nothing
+//@ func (*Variant).StatusCode
+//@   props C21
+//@   requires variantShape(m)
+//@   assigns nothing
+//@ func (*Variant).Time
+//@   props C21
+//@   requires variantShape(m)
+//@   assigns nothing
+//@ func (*Variant).Variant
+//@   props C21
+//@   requires variantShape(m)
+//@   assigns nothing
+//@ func (*Variant).XMLElement
+//@   props C21
+//@   requires variantShape(m)
+//@   assigns nothing
 
 // The other hand-written decoders: no panic, the reported count lies inside the input, nothing is
 // written but the target and younger objects, and no single allocation exceeds the input length.
